@@ -71,7 +71,9 @@ class TunnelEncap(Attribute):
     def __eq__(self, other: object) -> bool:
         if not isinstance(other, TunnelEncap):
             return False
-        return str(self) == str(other)
+        # the wire form, not str(): a sub-TLV class without __str__ renders as its memory address,
+        # so two decodes of the same bytes were unequal
+        return [tlv.pack() for tlv in self.tunnel_tlvs] == [tlv.pack() for tlv in other.tunnel_tlvs]
 
     def __ne__(self, other: object) -> bool:
         return not self.__eq__(other)
